@@ -300,6 +300,13 @@ def Mon.step (m : Mon) (w : World) (l : Label) (w' : World) : Mon × List Vio :=
     let cancelled := match p with | .inst i => cancelDueAll w i | .rl b' => (w.bus b').cancelReq | .ext => false
     let vs := if cancelled then [] else
       v "C11" "errorAbortsProcessing" [] s!"bus {b}: processing of event {e} was abandoned although nobody cancelled its executor: a handler's exception escaped"
+    -- (C18: an activation that is abandoned before the temporary handler of a pending expect() had its turn has not "processed"
+    --  the event for that call: the event leaves the call's list of candidates, unless the call was already resolved with it)
+    let since' : List (Nat × List EId) := m.expSince.map (fun (x, l) =>
+      match w.waiter x with
+      | .expecting b' _ _ _ got _ => if b' == b && got != some e then (x, l.erase e) else (x, l)
+      | _ => (x, l))
+    let m := { m with expSince := since' }
     -- (only a genuine cancellation files the activation under the recorded mechanisms stop-drop / F5)
     (match p, cancelled with
      | .rl _, true => ({ m with dropped := m.dropped ++ [(b, e)], ended := m.ended ++ [(b, e)] }, vs)   -- run loop cancelled by stop()
